@@ -32,6 +32,7 @@ type Violation struct {
 	Trace    []int64
 	Events   []string
 	Schedule []int
+	Conc     bool // more than one goroutine existed on the path
 }
 
 type ndVal struct {
@@ -66,6 +67,8 @@ type Path struct {
 	unknownGuard bool
 	mapOrder   bool
 	harness    string
+	symRand    bool
+	randState  uint64
 	params     map[string]int
 
 	pcCount int
@@ -367,6 +370,7 @@ func (p *Path) violate(label, site, msg string, m map[*Term]uint64) {
 		Events: append([]string(nil), p.events...)}
 	if p.sched != nil {
 		v.Schedule = append([]int(nil), p.sched.history...)
+		v.Conc = len(p.sched.gs) > 1
 	}
 	p.violations = append(p.violations, v)
 }
